@@ -463,6 +463,13 @@ func runC10(e *Env) {
 	metas := [][][2]string{nil, {{"bpm", "140"}}, {{"vel", "ff"}}, {{"mtr", "6/8"}}, {{"key", "F#m"}}, {{"txt", "hello world"}}, {{"lic", "la: la #1"}}, {{"mrk", "é♯"}}, {{"key", "Cb"}, {"bpm", "61"}, {"txt", "- x"}, {"vel", "pp"}, {"mtr", "5/4"}}, {{"foo", "bar"}}, {{"txt", "null"}}, {{"txt", "'q'"}}, {{"txt", "\"dq\""}}, {{"txt", "verse 1: "}}, {{"lic", "la\t"}, {"mrk", "m  "}}, {{"txt", "a  b"}},
 		// what a YAML printer escapes, and what merely looks like an escape
 		{{"txt", "😀"}}, {{"txt", `\U0001F600`}}, {{"lic", `\\U0001F600`}}, {{"mrk", `"\U0001F600"`}}, {{"txt", `\u00e9 \x41 \n \t \\`}}, {{"txt", "a\u0085b\u2028c"}}, {{"lic", "a\u00a0nbsp"}}, {{"mrk", "e\u0301"}}, {{"txt", "𝄪 𝄫"}}, {{"txt", "\x7f\x1b"}}}
+	// many entries on one instance, a long key, a long value
+	many := [][2]string{}
+	for i := 0; i < 20; i++ {
+		many = append(many, [2]string{fmt.Sprintf("k%02d", i), fmt.Sprintf("v %d", i)})
+	}
+	many = append(many[:10:10], append([][2]string{{"txt", "in the middle"}, {"bpm", "77"}, {"lic", "la"}}, many[10:]...)...)
+	metas = append(metas, many, [][2]string{{strings.Repeat("k", 300), "x"}, {"txt", strings.Repeat("long ", 60)}, {"mrk", strings.Repeat("é", 130)}})
 	var pipes []c10Pipe
 	for _, r := range roots {
 		for _, s := range syms {
